@@ -205,6 +205,19 @@ def ob_getitem_seq(n: int, start: int, size: int, orphan: int, overlap: int) -> 
     return True
 
 
+T_LAZY_REV = cooked('<dtml-in it mapping reverse_expr="r" start=st size=sz orphan=orp overlap=ov><dtml-call "rec(v)"></dtml-in>')
+
+
+def ob_reverse_expr(r: bool, start: int, size: int, orphan: int, overlap: int) -> bool:
+    """reverse_expr that evaluates false requests no reversal: the lazy bound applies (a true value is excepted by the statement)"""
+    it = Counting(None if not r else 7)
+    shown = []
+    T_LAZY_REV(it=it, r=r, st=start, sz=size, orp=orphan, ov=overlap, rec=shown.append)
+    if r:
+        return len(shown) >= 1
+    return shown == list(range(start - 1, start - 1 + size)) and in_order(it.pulled) and len(it.pulled) <= start - 1 + size + size + orphan
+
+
 def ob_unbatched(n: int) -> bool:
     """unbatched rendering pulls every element exactly once"""
     it = Counting(n)
@@ -233,3 +246,4 @@ OBLIGATIONS.append(Ob('unbounded', ob_unbounded, PREU, timeout=tier(250, 900), d
 OBLIGATIONS.append(Ob('unbounded_next', ob_unbounded_next, PREU, timeout=tier(250, 900), data='as unbounded', selectors='unbounded iterator, "next" link mode'))
 OBLIGATIONS.append(Ob('getitem_seq', ob_getitem_seq, PRE, timeout=tier(280, 1200), data='as finite_start', selectors='lazy sequence with __getitem__/__len__ (no iterator wrapper)'))
 OBLIGATIONS.append(Ob('unbatched', ob_unbatched, ['0 <= n <= %d' % tier(6, 10)], timeout=tier(200, 600), data='iterator length n', selectors='unbatched dtml-in over an iterator'))
+OBLIGATIONS.append(Ob('reverse_expr_false', ob_reverse_expr, PREU, timeout=tier(250, 900), data='truth value of reverse_expr, start, size, orphan, overlap', selectors='batched dtml-in with reverse_expr over an unbounded iterator (finite when the expression is true)'))
